@@ -117,6 +117,7 @@ func cmdCheck(args []string) (code int) {
 	dbg := fs.Bool("debug", false, "")
 	fs.Parse(args)
 	debugLoadField = *dbg
+	witnessDir = filepath.Join(*verif, "witness")
 	start := time.Now()
 	def := registry[*prop]
 	if def == nil {
